@@ -6,6 +6,7 @@ import time
 
 VERIF = os.path.dirname(os.path.dirname(os.path.abspath(__file__)))
 KNOWN = os.path.join(VERIF, "known_findings.json")
+EVDIR = os.environ.get("VERIF_EVIDENCE", os.path.join(VERIF, "evidence"))   # scratch runs (seed matrix) write elsewhere
 
 
 def load_known():
@@ -91,13 +92,16 @@ class Check:
                 listed.append(v)
             else:
                 unlisted.append(v)
-        os.makedirs(os.path.join(VERIF, "evidence", "replay"), exist_ok=True)
+        os.makedirs(os.path.join(EVDIR, "replay"), exist_ok=True)
+        for fn in os.listdir(os.path.join(EVDIR, "replay")):      # replay files describe this run's violations only
+            if fn.startswith(self.pid + "-"):
+                os.remove(os.path.join(EVDIR, "replay", fn))
         for v in listed:
             print("KNOWN-FINDING: property=%s %s [%s]" % (self.pid, open_keys[v["key"]]["what"], v["key"]))
         n = 0
         for v in unlisted:
             n += 1
-            rp = os.path.join(VERIF, "evidence", "replay", "%s-%d.json" % (self.pid, n))
+            rp = os.path.join(EVDIR, "replay", "%s-%d.json" % (self.pid, n))
             with open(rp, "w") as f:
                 json.dump({"property": self.pid, "tier": self.tier, **v}, f, indent=1, default=str)
             print("VIOLATION property=%s replay=%s" % (self.pid, rp))
@@ -148,6 +152,6 @@ class Check:
             "wall_s": round(time.time() - self.t0, 2),
             "violations": n_viol,
         }
-        p = os.path.join(VERIF, "evidence", self.pid + ".json")
+        p = os.path.join(EVDIR, self.pid + ".json")
         with open(p, "w") as f:
             json.dump(ev, f, indent=1, default=str)
